@@ -32,6 +32,13 @@ func (e notFoundErr) Is(t error) bool {
 	return t == os.ErrNotExist
 }
 
+// timeoutErr is the "transient network" kind: it reports itself as a timeout.
+type timeoutErr struct{}
+
+func (timeoutErr) Error() string   { return "verif: injected i/o timeout" }
+func (timeoutErr) Timeout() bool   { return true }
+func (timeoutErr) Temporary() bool { return true }
+
 // CommitEv is one committed block as seen by the storage write opener.
 type CommitEv struct {
 	Cid   cid.Cid
@@ -55,6 +62,7 @@ type Store struct {
 	failLoadAt int // k-th load attempt from now fails (1-based), 0 = off
 	loadCount  int
 	notFound   bool // kind of injected error
+	timeout    bool // kind of injected error (wins over notFound)
 
 	// write side
 	logWrites    bool
@@ -113,6 +121,9 @@ func (s *Store) ClearFaults() {
 }
 
 func (s *Store) injErr(c cid.Cid) error {
+	if s.timeout {
+		return timeoutErr{}
+	}
 	if s.notFound {
 		return notFoundErr{c}
 	}
